@@ -83,6 +83,11 @@ def run(tier, seed):
                   FPayloads="<- FP", Mutations="<- NoMutations")
     e = cc.export(ctx, "honest-export", c, inv, ("HONEST",), timeout=7200)
     cc.replay_honest(ctx, e.exports["HONEST"])
+    # blocks that declare public keys (a `trusting` scope): the key table of the token grows along the history
+    c = cc.consts(PayloadVersion="<- PVKeys", MaxOps=4, MaxBlocks=4, MaxToks=1, RootAlgs="<- AlgsEd", ExtAlgs="<- AlgsEd", KeyAlgs="<- AlgsEd",
+                  FPayloads="<- FPKeys", Mutations="<- NoMutations")
+    e = cc.export(ctx, "honest-keys", c, inv, ("HONEST",), timeout=7200)
+    cc.replay_honest(ctx, e.exports["HONEST"])
     # impl -> spec: recorded runs validated by TLC
     trace, events, ok = validate_chain_trace(ctx, 3000 if big else 400, "rec")
     if ok:
@@ -92,7 +97,8 @@ def run(tier, seed):
              "for root, block and external keys (invariants Complete, VersionMonotone, RevIdsStable, RevIdsUnique); "
              "(2) each exported history is executed through the real API on every mix of Biscuit / UnverifiedBiscuit paths "
              "and each produced token must be byte-identical to the concretised spec token, be admitted by all four entry points, "
-             "re-serialise byte-exactly and expose the same block sources, root key id and block count; "
+             "re-serialise byte-exactly and expose the same block sources, root key id and block count (histories whose blocks declare public keys - payload P7 with a "
+             "`trusting` scope - are compared as decoded tokens: their block bytes depend on the key table built so far); "
              "(3) seeded random runs of the real API (random contents, <= 8 ops) are projected to abstract tokens (signatures "
              "projected by raw verification against layout.rs messages) and validated by TLC against ChainTrace.tla. "
              "distinct_nontrivial = honest histories replayed + distinct (op, per-block version/algorithm/external, proof) shapes in traces.")
